@@ -138,6 +138,14 @@ def check_C19(ctx):
     facts = prepare(ctx, need_ocaml=True)
     rep = tables_tie(ctx, facts)
     wire_tags_tie(ctx, facts)
+    # decoded structures moved into a field with another tag go out under that field's tag (impl-only oracle)
+    if facts.get("harness_ok"):
+        rc, hrep, out, err = run_harness(["history", "-seed", str(ctx.seed), "-n", "4"])
+        if hrep is not None:
+            ctx.cov["transplant_cases"] = hrep.get("distribution", {}).get("transplant", 0)
+            for v in hrep["violations"][:4]:
+                if v.get("kind") in ("transplant", "user-type-tag"):
+                    ctx.violation(v["kind"], v)
     ctx.cov["exhaustive"] = True
     ctx.assumptions += [
         "SpecSchema.v is a faithful transcription of KMIP 1.4 sections 2, 3, 4, 6, 7 for the modelled structures (see DESIGN.md)",
